@@ -64,4 +64,36 @@ def layoutOK (g : G D) (side : Dir) (keys : List Seq) (vals : List Nat) : Bool :
 def slotsOK (keys : List Seq) (ids : List (Option Nat)) : Bool :=
   keys.length == ids.length && (List.range keys.length).all (fun pos => ids[pos]? == some (some pos))
 
+/-! ### `create_map`: the cycle sort that moves every (key, value) pair to the slot the hash function names -/
+
+/-- the inner `loop { … }` of `create_map` at position `i`; `none` = a panic (`Mphf::hash` unwraps a `None`,
+    `Vec::swap` out of bounds) or the fuel ran out (the real loop has none: `createMap_spec` shows `size + 1` suffices) -/
+def settle (th : Seq → Option Nat) (i : Nat) : Nat → Array (Seq × Nat) → Option (Array (Seq × Nat))
+  | 0, _ => none
+  | fuel + 1, ps =>
+    if hi : i < ps.size then
+      match th ps[i].1 with
+      | none => none
+      | some slot =>
+        if i = slot then some ps
+        else if hs : slot < ps.size then settle th i fuel (ps.swap i slot hi hs)
+        else none
+    else none
+
+/-- `for i in 0..keys.len() { loop { … } }` -/
+def createLoop (th : Seq → Option Nat) : Nat → Nat → Array (Seq × Nat) → Option (Array (Seq × Nat))
+  | 0, _, ps => some ps
+  | r + 1, i, ps =>
+    match settle th i (ps.size + 1) ps with
+    | none => none
+    | some ps' => createLoop th r (i + 1) ps'
+
+/-- `BoomHashMap::create_map(keys, values, mphf)` -/
+def Map.create (th : Seq → Option Nat) (keys : List Seq) (vals : List Nat) : Option Map :=
+  let ps := (keys.zip vals).toArray
+  (createLoop th ps.size 0 ps).map fun ps' => ⟨th, ps'.toList.map (·.1), ps'.toList.map (·.2)⟩
+
+/-- the parallel arrays `finish` / `finish_serial` hand to `BoomHashMap::new(_parallel)` -/
+def endKeys (g : G D) (side : Dir) : List Seq := g.nodes.map fun nd => termKmer g.K nd.seq side
+
 end Boom
